@@ -121,7 +121,7 @@ func cmdCheck(prop, tier string) int {
 		if c.Dep || c.Callback || !c.hasTag(prop) {
 			continue
 		}
-		if c.Trusted != "" && c.Captures == nil {
+		if c.Trusted != "" && c.Captures == nil && c.NoStore == nil {
 			continue
 		}
 		fk := k
